@@ -3,7 +3,8 @@
 Two ts-server instances built from the current tree (1 and 3 partitions per node).  Bounded exhaustive
 enumeration (odometer, no randomness) of
   data sets   (lib/c08_model.py: 3 series x 4 timestamps x {absent, f+g, f only, g only}, <= 6 points)
-  layouts     memory | flushed | flushed + late (out-of-order / row-completing) points | late points flushed too
+  layouts     memory | flushed | flushed + late (out-of-order / row-completing) points | late points flushed too |
+              flushed + newer rows in memory | two ordered files
   statements  SELECT (f | f,g | agg(f)) FROM m [WHERE ..] [GROUP BY tag | time(w) [fill(..)]] [ORDER BY time DESC] [LIMIT n OFFSET k]
   configs     chunk size n in {1, 2, default} (inner_chunk_size=n, and chunk_size=n when chunked) x chunked {off, on}
               x chunk_reader_parallel {1, default} x server {1 partition, 3 partitions}
@@ -25,7 +26,7 @@ MANIFEST = dict(
               "configurations on two real ts-server instances (1 and 3 partitions), differential oracle against a direct evaluator of "
               "the documented semantics plus metamorphic relations (configuration/layout/partition invariance, DESC = reverse ASC)",
     text="Every statement of a finite SELECT grammar is run on every enumerated data set in every layout (memory, flushed, flushed+late, "
-         "late flushed) under every combination of chunk size, response chunking, reader parallelism and partition count over HTTP; each "
+         "late flushed, flushed+newer memory, two ordered files) under every combination of chunk size, response chunking, reader parallelism and partition count over HTTP; each "
          "answer must be one the reference evaluator allows.",
     note="Trusts: the reference evaluator's reading of InfluxQL (leniency list in notes/C08.md); the HTTP JSON rendering; only the stated "
          "core of the language (no sub-queries, joins, regex sources, SLIMIT); <= 6 points per data set.",
